@@ -345,15 +345,16 @@ impl MutableArchive {
         }
 
         // Check if file exists and if we should replace it
+        let mut replaced_hash_index = None;
         let existing_block_index =
             if let Some((hash_index, entry)) = self.find_file_entry(&archive_name)? {
                 if !options.replace_existing {
                     return Err(Error::FileExists(archive_name));
                 }
-                // Mark the existing entry as deleted for now
-                if let Some(hash_table) = &mut self.hash_table {
-                    hash_table.get_mut(hash_index).unwrap().block_index = HashEntry::EMPTY_DELETED;
-                }
+                // The existing entry is retired below, once the new data has been
+                // prepared and written: a failure up to that point (e.g. a compression
+                // method without an encoder) must leave the old file in place.
+                replaced_hash_index = Some(hash_index);
 
                 // If this is a special file update, remember its block index for reuse
                 if is_internal_update {
@@ -383,6 +384,13 @@ impl MutableArchive {
         // Write the file data to the archive
         self.file.seek(SeekFrom::Start(file_offset))?;
         self.file.write_all(&compressed_data)?;
+
+        // Retire the entry that is being replaced
+        if let Some(hash_index) = replaced_hash_index
+            && let Some(hash_table) = &mut self.hash_table
+        {
+            hash_table.get_mut(hash_index).unwrap().block_index = HashEntry::EMPTY_DELETED;
+        }
 
         // Update next file offset for subsequent files in this session
         let next_offset = file_offset + compressed_data.len() as u64;
